@@ -18,7 +18,7 @@ def ties(ctx):
 def search(ctx, reason):
     t = run_conc(ctx, 'c17', 'shuttle', 10000, seed_offset=51)
     for f in t.failures:
-        if f.kind == 'oracle':
+        if f.kind == 'oracle' and f.key not in listed_keys():
             return f
     return None
 
